@@ -20,6 +20,8 @@ var atoms = []string{
 	`start = AA ;`, `start = UU ;`, `start = "x" ;`, `start = "y" z ;`, `z = "y" ;`, `q = BB ;`,
 	`@left AA ;`, `@right AA ;`, `@left "y" ;`, `@none < z = "y" > ;`,
 	`start = AA BB ;`, `q = BB AA | BB ;`,
+	// a string literal spelled like a token name: two different terminals (the literal defines itself)
+	`q = "AA" ;`, `start = AA "AA" ;`,
 }
 
 // The predefined patterns as the harness reads them (anchor: ebnf/parser Predefs): name -> pattern.
@@ -267,6 +269,14 @@ func checkText(r *ev.Run, text string) {
 		ev.Fatal("harness text is not syntactically valid: %v\n%s", err, text)
 	}
 	a := analyse(sp)
+	// Known-finding predicate "literal-spelled-like-token": emerge names a string literal's terminal by its text and a
+	// token's terminal by its name, in one name space; a literal whose text is the name of a token written in the same
+	// specification is therefore merged with that token (or reported as its second definition), depending on the order.
+	class := ""
+	if literalSpelledLikeToken(sp) {
+		class = "literal-spelled-like-token"
+		r.Add("specs_with_a_literal_spelled_like_a_token", 1)
+	}
 	res := impl.Parse("f.g", text)
 	r.Add("specs", 1)
 	if res.Panic != "" {
@@ -300,10 +310,10 @@ func checkText(r *ev.Run, text string) {
 	case borderline:
 		r.Add("borderline_not_judged", 1)
 	case rejected && len(a.required) == 0:
-		r.Report("", fmt.Sprintf("a well-formed specification is rejected: %s\n%s", msg, text), in)
+		r.Report(class, fmt.Sprintf("a well-formed specification is rejected: %s\n%s", msg, text), in)
 		return
 	case !rejected && len(a.required) > 0:
-		r.Report("", fmt.Sprintf("an ill-formed specification is accepted; problems present: %v\n%s", keys(a.required), text), in)
+		r.Report(class, fmt.Sprintf("an ill-formed specification is accepted; problems present: %v\n%s", keys(a.required), text), in)
 		return
 	}
 	if rejected {
@@ -325,7 +335,7 @@ func checkText(r *ev.Run, text string) {
 				}
 			}
 			if !ok {
-				r.Report("", fmt.Sprintf("the diagnostics name a problem that is not present: %s (present: %v)\n%s\n--- diagnostics ---\n%s", k, keys(a.allowed), text, msg), in)
+				r.Report(class, fmt.Sprintf("the diagnostics name a problem that is not present: %s (present: %v)\n%s\n--- diagnostics ---\n%s", k, keys(a.allowed), text, msg), in)
 				return
 			}
 			if a.required[k] || k == "twolevels:*" {
@@ -333,7 +343,7 @@ func checkText(r *ev.Run, text string) {
 			}
 		}
 		if !hit && !borderline && len(unknown) == 0 {
-			r.Report("", fmt.Sprintf("the diagnostics name none of the problems present %v\n%s\n--- diagnostics ---\n%s", keys(a.required), text, msg), in)
+			r.Report(class, fmt.Sprintf("the diagnostics name none of the problems present %v\n%s\n--- diagnostics ---\n%s", keys(a.required), text, msg), in)
 		}
 		return
 	}
@@ -349,11 +359,11 @@ func checkText(r *ev.Run, text string) {
 		want, known := a.defs[t]
 		switch {
 		case len(ds) != 1:
-			r.Report("", fmt.Sprintf("terminal %q has %d definitions in the accepted specification\n%s", t, len(ds), text), in)
+			r.Report(class, fmt.Sprintf("terminal %q has %d definitions in the accepted specification\n%s", t, len(ds), text), in)
 		case !known:
-			r.Report("", fmt.Sprintf("terminal %q of the derived grammar is not written in the specification\n%s", t, text), in)
+			r.Report(class, fmt.Sprintf("terminal %q of the derived grammar is not written in the specification\n%s", t, text), in)
 		case ds[0].Value != want.value || ds[0].IsRegex != want.isRegex:
-			r.Report("", fmt.Sprintf("terminal %q is defined as (%q, pattern=%v), the specification says (%q, pattern=%v)\n%s", t, ds[0].Value, ds[0].IsRegex, want.value, want.isRegex, text), in)
+			r.Report(class, fmt.Sprintf("terminal %q is defined as (%q, pattern=%v), the specification says (%q, pattern=%v)\n%s", t, ds[0].Value, ds[0].IsRegex, want.value, want.isRegex, text), in)
 		}
 	}
 	for t := range a.defs {
@@ -362,12 +372,69 @@ func checkText(r *ev.Run, text string) {
 			found = found || x == t
 		}
 		if !found {
-			r.Report("", fmt.Sprintf("terminal %q written in the specification is missing from the derived grammar\n%s", t, text), in)
+			r.Report(class, fmt.Sprintf("terminal %q written in the specification is missing from the derived grammar\n%s", t, text), in)
 		}
 	}
 	if len(res.Defs) != len(res.Terms) {
-		r.Report("", fmt.Sprintf("%d definitions for %d terminals\n%s", len(res.Defs), len(res.Terms), text), in)
+		r.Report(class, fmt.Sprintf("%d definitions for %d terminals\n%s", len(res.Defs), len(res.Terms), text), in)
 	}
+}
+
+// literalSpelledLikeToken reports whether some string literal of the specification has the text of a token name that
+// is declared or used in it.
+func literalSpelledLikeToken(sp *ebnfref.Spec) bool {
+	toks, lits := map[string]bool{}, map[string]bool{}
+	var walk func(e ebnfref.Expr)
+	walk = func(e ebnfref.Expr) {
+		switch v := e.(type) {
+		case *ebnfref.Cat:
+			for _, o := range v.Ops {
+				walk(o)
+			}
+		case *ebnfref.Alt:
+			for _, o := range v.Ops {
+				walk(o)
+			}
+		case *ebnfref.Group:
+			walk(v.X)
+		case *ebnfref.Opt:
+			walk(v.X)
+		case *ebnfref.Star:
+			walk(v.X)
+		case *ebnfref.Plus:
+			walk(v.X)
+		case *ebnfref.Tok:
+			toks[v.Name] = true
+		case *ebnfref.Str:
+			lits[v.Lexeme] = true
+		}
+	}
+	for _, d := range sp.Decls {
+		switch v := d.(type) {
+		case *ebnfref.TokenDecl:
+			toks[v.Name] = true
+		case *ebnfref.Rule:
+			if v.RHS != nil {
+				walk(v.RHS)
+			}
+		case *ebnfref.Directive:
+			for _, h := range v.Handles {
+				if h.Rule != nil {
+					if h.Rule.RHS != nil {
+						walk(h.Rule.RHS)
+					}
+				} else {
+					walk(h.Term)
+				}
+			}
+		}
+	}
+	for l := range lits {
+		if toks[l] {
+			return true
+		}
+	}
+	return false
 }
 
 func main() {
@@ -435,7 +502,7 @@ func main() {
 			checkText(r, "grammar g\nPP = "+name+"\nstart = PP ;\n")
 		}
 	}
-	r.Assume("a literal and a pattern with the same text, and a string literal spelled like a token name, are left out of the alphabet (unspecified)")
+	r.Assume("a literal and a pattern with the same text are left out of the alphabet (unspecified)")
 	r.Assume("diagnostics are classified by a fixed table of message shapes; a line of unknown shape is counted, never judged")
 	r.Finish()
 }
